@@ -26,3 +26,5 @@ for d in /verif/seeded/C*; do
   for f in $d/patch*.diff; do [ -f $f ] && run $f $id; done
 done
 git -C /repo status --short
+# rebuild the harness binaries from the reverted tree (the check above left mutant binaries)
+cd /verif && cargo build --offline --workspace >/dev/null 2>&1
